@@ -4,6 +4,7 @@
   possible only while this transaction holds no lock on p.
 -/
 import Csvq.Props.C01
+import Csvq.Lemmas.SessionHist
 namespace Csvq.C20
 open Csvq.Session
 
@@ -78,7 +79,60 @@ theorem fresh_after_rollback (s : State C) (p : Path) :
     (step (doRollback s) (.select p)).2 = (match (doRollback s).disk p with | some d => .rows d | none => .failed) :=
   select_uncached (doRollback s) p rfl
 
+/-! ## Full histories: own statements and foreign commits interleaved arbitrarily -/
+
+/-- **Full history form, table held for update.**  From a state in which table p is cached under the
+    lock with contents `c`, after ANY sequence of statements of this transaction (reads, FOR UPDATE reads,
+    changes to this and other tables, CREATE, temporary tables) interleaved in ANY way with commits by
+    other processes to any file — up to the next COMMIT / ROLLBACK — the cached table is exactly `c` with
+    the transaction's own successful changes to p applied in order, and it is still held for update. -/
+theorem locked_view_is_own_changes (p : Path) (ops : List (Op C)) (hne : ∀ op ∈ ops, ¬ IsEnd op) :
+    ∀ (s : State C) (c : C), s.cache p = some ⟨c, true⟩ →
+      (runOps s ops).cache p = some ⟨ownEffect p ops c, true⟩ := by
+  induction ops with
+  | nil => intro s c h; exact h
+  | cons op ops ih =>
+    intro s c h
+    have h1 := step_locked s p c op (hne op List.mem_cons_self) h
+    have := ih (fun o ho => hne o (List.mem_cons_of_mem _ ho)) (step s op).1 _ h1
+    rw [ownEffect_cons]
+    simpa only [runOps, List.foldl_cons] using this
+
+/-- … so every later read of p in that history shows exactly that -/
+theorem read_shows_loaded_plus_own_changes (p : Path) (ops : List (Op C)) (hne : ∀ op ∈ ops, ¬ IsEnd op)
+    (s : State C) (c : C) (h : s.cache p = some ⟨c, true⟩) :
+    (step (runOps s ops) (.select p)).2 = .rows (ownEffect p ops c) :=
+  C01.select_shows_view _ p ⟨ownEffect p ops c, true⟩ (locked_view_is_own_changes p ops hne s c h)
+
+/-- **Full history form, table loaded by a plain SELECT.**  Whatever this transaction does to other tables
+    and however often it re-reads p, and whatever other processes commit to p or any other file in
+    between, every plain read of p keeps showing the contents first loaded — until the transaction itself
+    asks for p under the lock (the documented reload) or ends. -/
+theorem unlocked_view_stable (p : Path) (ops : List (Op C)) (hk : ∀ op ∈ ops, KeepsUnlocked p op) :
+    ∀ (s : State C) (c : C), s.cache p = some ⟨c, false⟩ →
+      (step (runOps s ops) (.select p)).2 = .rows c := by
+  induction ops with
+  | nil => intro s c h; exact C01.select_shows_view _ p ⟨c, false⟩ h
+  | cons op ops ih =>
+    intro s c h
+    have h1 := step_unlocked s p c op (hk op List.mem_cons_self) h
+    have := ih (fun o ho => hk o (List.mem_cons_of_mem _ ho)) (step s op).1 c h1
+    simpa only [runOps, List.foldl_cons] using this
+
 /-! non-vacuity -/
+example : (step (runOps (fresh (fun _ => some [1]))
+    [.selectForUpdate 0, .other 1 [9], .dml 0 (fun l => some (2 :: l)), .other 0 [7], .select 1,
+     .dml 0 (fun _ => none), .dml 0 (fun l => some (3 :: l))]) (.select 0)).2 = (.rows [3, 2, 1] : Out (List Nat)) := by
+  have h0 : (runOps (fresh (fun _ => some [1])) [Op.selectForUpdate 0]).cache 0 = some ⟨[1], true⟩ := by
+    simp [runOps, step, load, fresh, setFn]
+  have := read_shows_loaded_plus_own_changes 0
+    [.other 1 [9], .dml 0 (fun l => some (2 :: l)), .other 0 [7], .select 1,
+     .dml 0 (fun _ => none), .dml 0 (fun l => some (3 :: l))]
+    (by intro op h; simp at h; rcases h with rfl | rfl | rfl | rfl | rfl | rfl <;> exact id)
+    (runOps (fresh (fun _ => some [1])) [Op.selectForUpdate 0]) [1] h0
+  simpa [runOps, ownEffect] using this
+
+
 example : (step (runOps (fresh (fun _ => some [1]))
     [.select 0, .other 0 [7, 7], .other 0 [8]]) (.select 0)).2 = (.rows [1] : Out (List Nat)) := by
   have hc : (runOps (fresh (fun _ => some [1])) [Op.select 0]).cache 0 = some ⟨[1], false⟩ := by
